@@ -403,7 +403,6 @@ func runComp(c *C05Comp) (sig, detail string) {
 	return "", ""
 }
 
-
 // ---- a required parameter of the path item next to an operation parameter whose name differs by case only ----
 func runCaseVariants() (sig, detail string) {
 	for _, in := range []string{"query", "cookie"} {
